@@ -592,6 +592,16 @@ struct Loc<'a> {
 }
 
 pub fn c06(ix: &Index) -> Vec<Viol> {
+    c06_impl(ix, None)
+}
+
+/// the per-attachment part of C06 for the attachments selected by `only` (used by C13/C14 for
+/// what is recorded through the local parent during an adapter's polls)
+pub fn c06_only(ix: &Index, only: &dyn Fn(&MAtt) -> bool) -> Vec<Viol> {
+    c06_impl(ix, Some(only))
+}
+
+fn c06_impl(ix: &Index, only: Option<&dyn Fn(&MAtt) -> bool>) -> Vec<Viol> {
     let mut out = Vec::new();
     let h = ix.h;
     if names_ambiguous(h) || h.limit_hit {
@@ -649,11 +659,17 @@ pub fn c06(ix: &Index) -> Vec<Viol> {
         }
     }
     for k in keys.keys() {
+        if only.is_some() {
+            break;
+        }
         if !known_keys.contains(k) && !k.starts_with("bk") {
             out.push(v("C06", "unknown-property", format!("delivered property key {:?} was never attached", k)));
         }
     }
     for e in events.keys() {
+        if only.is_some() {
+            break;
+        }
         if !known_events.contains(e) && *e != "f" && !e.starts_with("be") {
             out.push(v("C06", "unknown-event", format!("delivered event {:?} was never attached", e)));
         }
@@ -663,6 +679,11 @@ pub fn c06(ix: &Index) -> Vec<Viol> {
     // (record name, trace, span id) -> [(route, vt, att idx, position)] for the order check
     let mut order: HashMap<(String, u128, bool), Vec<(Route, usize, usize, usize, Option<usize>)>> = HashMap::new();
     for (ai, a) in h.atts.iter().enumerate() {
+        if let Some(f) = only {
+            if !f(a) {
+                continue;
+            }
+        }
         // target records: name + the set of expected copies
         let (tname, copies): (String, Vec<&Exp>) = match a.target {
             ARef::Span(s) => (
@@ -800,7 +821,13 @@ pub fn c06(ix: &Index) -> Vec<Viol> {
             }
             if must && here.len() < per_copy_expected * ncopies {
                 let tvt = src_vt(h, e0.src);
-                let cut = inconsistent_cut_possible(h, unit, Some((a.vt, a.t))) || (Some(a.vt) != tvt && cycle_spans(h, a.t.1, target_fin.0));
+                // the command that carries the attachment enters the thread's queue when the
+                // call returns (handle route) or when the carrying local-parent scope ends
+                let pushed = match (a.route, a.scope.and_then(|sc| h.scopes[sc].close_t)) {
+                    (Route::Local, Some(ct)) => ct,
+                    _ => a.t,
+                };
+                let cut = inconsistent_cut_possible(h, unit, Some((a.vt, pushed))) || (Some(a.vt) != tvt && cycle_spans(h, pushed.1, target_fin.0));
                 let sig = if cut {
                     "attachment-lost:inconsistent-cut".to_string()
                 } else if default_cancel {
@@ -850,6 +877,9 @@ pub fn c06(ix: &Index) -> Vec<Viol> {
         }
     }
     // 4. order per (route, vthread) on each record
+    if only.is_some() {
+        order.clear();
+    }
     for ((tname, _trace, _ev), mut v_) in order {
         v_.sort_by_key(|x| x.2);
         // "same route" for the local route means the same carrying local-parent scope: scopes are
@@ -2241,6 +2271,18 @@ pub fn c13(ix: &Index, prop: &'static str, sched: bool) -> Vec<Viol> {
     }));
     for p in &h.panics {
         out.push(v(prop, format!("panic:{}", p.op), format!("{} panicked: {}", p.op, p.msg)));
+    }
+    // "has that span as local parent during every poll": events and properties recorded through
+    // the local parent during a poll land on the delivered record of the span they were attached
+    // to, wherever collector cycles fall between the polls. (Operation-granularity engine only:
+    // there every cycle sees a consistent cut of the queues.)
+    if !sched {
+        let during_poll = |a: &MAtt| a.route == Route::Local && a.scope.map_or(false, |sc| h.scopes[sc].by_adapter.is_some());
+        out.extend(c06_only(ix, &during_poll).into_iter().map(|mut x| {
+            x.prop = prop;
+            x.sig = format!("recorded-during-poll:{}", x.sig);
+            x
+        }));
     }
     for (ai, a) in h.adapters.iter().enumerate() {
         let want_kinds: &[AdapterKind] = if prop == "C13" {
